@@ -1,6 +1,7 @@
 package props
 
 import (
+	"runtime"
 	"bufio"
 	"encoding/json"
 	"fmt"
@@ -271,6 +272,10 @@ type c02Case struct {
 	List   []rows `json:"list,omitempty"`
 	Ext    string `json:"ext,omitempty"`
 	Chain  []int  `json:"chain,omitempty"`
+	// Huge (kind huge): Huge[0] rows x Huge[1] columns of the shape family are generated by the case itself
+	// (the payload stays small); Procs: GOMAXPROCS during the case
+	Huge  []int `json:"huge,omitempty"`
+	Procs int   `json:"gomaxprocs,omitempty"`
 }
 
 // c02Reader hands out one reused buffered reader per process (the parsers
@@ -878,6 +883,13 @@ func c02Check(c *mc.Ctx, cs c02Case) {
 		debug.SetGCPercent(1600)
 	})
 	c.Mark(cs)
+	if cs.Procs > 0 {
+		defer runtime.GOMAXPROCS(runtime.GOMAXPROCS(cs.Procs))
+	}
+	if cs.Kind == "huge" {
+		c02Huge(c, cs)
+		return
+	}
 	k := &c02Checker{c: c, cs: cs}
 	switch cs.Kind {
 	case "rt":
@@ -936,6 +948,49 @@ const (
 func c02Pattern(syms string, i, j int) byte {
 	b, o := j/10, j%10
 	return syms[(b+13*i+o*(1+(b+2*i)%5))%len(syms)]
+}
+
+// c02Huge: an alignment of more than 2^21 residues (a writer that formats blocks of rows in several workers
+// would only do so there) through every writer, read back by the format's own parser: same names in the same
+// order, same residues.  The payload names the shape; the rows are generated here.
+func c02Huge(c *mc.Ctx, cs c02Case) {
+	if len(cs.Huge) != 2 {
+		c.Fatal("bad huge case %s", jsonStr(cs))
+		return
+	}
+	r := c02ShapeRows(c02NtSyms, cs.Huge[0], cs.Huge[1])
+	al, err := mkAlign(align.NUCLEOTIDS, r)
+	if err != nil {
+		c.Fatal("cannot build the huge alignment: %v", err)
+		return
+	}
+	for _, vi := range c02OnePerFormat {
+		v := &c02Variants[vi]
+		c.Eval()
+		var got align.Alignment
+		var perr error
+		if pn, msg := mc.Guard(func() { got, perr = c02ParseReader(v, c02Reader(c02Write(v, al))) }); pn {
+			c.Violation("C02/huge/"+v.Name+"/panic", msg, cs)
+			return
+		}
+		if perr != nil || got == nil {
+			c.Violation("C02/huge/"+v.Name+"/parse-error", fmt.Sprintf("%d x %d alignment written as %s does not parse back: %v", cs.Huge[0], cs.Huge[1], v.Name, perr), cs)
+			return
+		}
+		back := readRows(got)
+		if len(back) != len(r) {
+			c.Violation("C02/huge/"+v.Name+"/row-count", fmt.Sprintf("%d rows written as %s, %d read back (GOMAXPROCS %d)", len(r), v.Name, len(back), cs.Procs), cs)
+			return
+		}
+		for i := range r {
+			if back[i] != r[i] && !(v.Strict && back[i].Seq == r[i].Seq) {
+				c.Violation("C02/huge/"+v.Name+"/row-differs", fmt.Sprintf("row %d (%s) of %d written as %s reads back as %s with other residues or another name", i, r[i].Name, len(r), v.Name, back[i].Name), cs)
+				return
+			}
+		}
+		c.Nontrivial(fmt.Sprintf("huge|%v|%d|%s", cs.Huge, cs.Procs, v.Name))
+		c.Outcome("huge:" + v.Name + ":ok")
+	}
 }
 
 func c02ShapeRows(syms string, n, L int) rows {
@@ -1229,6 +1284,13 @@ func c02Tasks(tier string) []mc.Task {
 		})
 	}
 
+	//   more than 2^21 residues, row counts that 2, 3, 4 do not all divide, under 1, 3, 4 processors
+	for _, procs := range []int{1, 3, 4} {
+		procs := procs
+		add(fmt.Sprintf("shape#huge/procs%d", procs), func(c *mc.Ctx) {
+			c02Check(c, c02Case{Kind: "huge", Huge: []int{1003, 2100}, Procs: procs})
+		})
+	}
 	//   rows longer than the readers' 4096-byte buffer (one-line Phylip, Nexus and Stockholm write a row on one line)
 	add("shape#long", func(c *mc.Ctx) {
 		for _, L := range []int{4000, 4095, 4096, 4097, 8200} {
